@@ -38,7 +38,7 @@ type setup struct {
 
 func endpoint(i int) string { return fmt.Sprintf("http://127.0.0.1:%d", 1000+i) }
 
-func build(t interface{ Fatalf(string, ...interface{}) }, s setup) (*clusters.ClusterInfo, []string) {
+func build(t interface{ Fatalf(string, ...interface{}) }, s setup) (*clusters.ClusterInfo, []string, *proxyv1alpha1.UpstreamCluster) {
 	unready := map[string]bool{}
 	for i := 0; i < s.K; i++ {
 		if s.Unready[i] {
@@ -109,7 +109,7 @@ func build(t interface{ Fatalf(string, ...interface{}) }, s setup) (*clusters.Cl
 		}
 		time.Sleep(time.Millisecond)
 	}
-	return ci, ready
+	return ci, ready, c
 }
 
 var req = gen.Request{Resource: true, Verb: "get", Res: "pods", User: "u"}.Attributes()
@@ -156,12 +156,18 @@ func stop(ci *clusters.ClusterInfo) { ci.Stop() }
 
 // TestPropExplicitSubsetStrict: with an explicit subset every window of N consecutive picks is balanced to floor/ceil.
 func TestPropExplicitSubsetStrict(t *testing.T) {
-	sub := stats.NewSub("explicit-subset-strict", "rapid: k in 1..12 endpoints, each healthy / unhealthy / disabled, policy with an explicit upstream subset in any order; L = 1..400 sequential picks (MatchAttributes + Pop per pick), then G goroutines x P picks; oracle: every pick is a ready endpoint of the subset; in every window of N consecutive sequential picks each of the r ready endpoints appears floor(N/r) or ceil(N/r) times; the totals over all picks (sequential + concurrent) are balanced to floor/ceil; no ready endpoint => error and no pick; non-trivial = >= 2 ready endpoints in the policy and L >= r; distinct by FNV-64 of (setup, L)")
+	sub := stats.NewSub("explicit-subset-strict", "rapid: k in 1..12 endpoints, each healthy / unhealthy / disabled, policy with an explicit upstream subset in any order; L = 1..400 sequential picks (MatchAttributes + Pop per pick) with 0-3 re-deliveries of the unchanged object (ClusterInfo.Sync) at generated positions in between, then G goroutines x P picks; oracle: every pick is a ready endpoint of the subset; in every window of N consecutive sequential picks each of the r ready endpoints appears floor(N/r) or ceil(N/r) times; the totals over all picks (sequential + concurrent) are balanced to floor/ceil; no ready endpoint => error and no pick; non-trivial = >= 2 ready endpoints in the policy and L >= r; distinct by FNV-64 of (setup, L)")
 	stats.Check(t, stats.N(800, 6000), func(t *rapid.T) {
 		s := genSetup(t, true)
-		ci, ready := build(t, s)
+		ci, ready, obj := build(t, s)
 		defer stop(ci)
 		L := rapid.IntRange(1, 400).Draw(t, "L")
+		// the informer re-delivers the unchanged object now and then (resync, edits of unrelated fields): the ready set stays
+		// the same, so the windows below span these deliveries
+		resyncAt := map[int]bool{}
+		for i, n := 0, rapid.IntRange(0, 3).Draw(t, "resyncs"); i < n; i++ {
+			resyncAt[rapid.IntRange(0, L-1).Draw(t, "resyncBeforePick")] = true
+		}
 		r := len(ready)
 		sub.Eval()
 		isReady := map[string]bool{}
@@ -170,6 +176,12 @@ func TestPropExplicitSubsetStrict(t *testing.T) {
 		}
 		var seqPicks []string
 		for i := 0; i < L; i++ {
+			if resyncAt[i] {
+				if err := ci.Sync(obj.DeepCopy()); err != nil {
+					t.Fatalf("harness: re-sync of the unchanged object failed: %v", err)
+				}
+				sub.Class("resync-of-the-unchanged-object-between-picks")
+			}
 			e, err := pick(ci)
 			if r == 0 {
 				if err == nil {
@@ -267,7 +279,7 @@ func TestPropNoSubsetBounded(t *testing.T) {
 	const N = 400000
 	stats.Check(t, stats.N(25, 300), func(t *rapid.T) {
 		s := genSetup(t, false)
-		ci, ready := build(t, s)
+		ci, ready, _ := build(t, s)
 		defer stop(ci)
 		r := len(ready)
 		sub.Eval()
